@@ -3,6 +3,7 @@ package rules1
 import (
 	"fmt"
 	"math/big"
+	"sort"
 	"testing"
 
 	"github.com/blinklabs-io/gouroboros/ledger/common"
@@ -121,7 +122,7 @@ func addToOut(o *Out, id AssetID, q *big.Int) {
 }
 
 // c08Families: how the out-of-range quantity gets into the transaction.
-var c08Families = []string{"pair", "pair", "shift", "sum", "single", "collret", "control"}
+var c08Families = []string{"pair", "pair", "shift", "sum", "single", "collret", "control", "spread", "spread", "spread"}
 
 func genC08(rt *rapid.T, era Era) (*Case, string) {
 	fam := c08Families[rapid.IntRange(0, len(c08Families)-1).Draw(rt, "family")]
@@ -147,6 +148,40 @@ func genC08(rt *rapid.T, era Era) (*Case, string) {
 					V: Val{Coin: rapid.Uint64Range(1_000_000, 5_000_000).Draw(rt, "sumCoin")}}
 				lo := rapid.Uint64Range(^uint64(0)-hi+1, ^uint64(0)).Draw(rt, "sumB")
 				in.V.Assets = []AQ{{id, new(big.Int).SetUint64(lo)}}
+				c.Tx.Ins = append(c.Tx.Ins, in)
+			}
+		}
+	}
+	// 'spread': the SAME (policy, asset) sits in 2..3 outputs, every quantity
+	// legal on its own (incl. 2^63, 2^64-1, 1); one UTxO entry per part supplies
+	// it, so conservation holds. Nothing here is out of range when written -
+	// the point is what the outputs look like AFTER validation ran.
+	var spreadID AssetID
+	var spreadParts []*big.Int
+	if fam == "spread" {
+		np := rapid.IntRange(2, 3).Draw(rt, "spreadParts")
+		o.MinOuts = np
+		spreadID = AssetID{Policy: foreignPolicy(8), Name: assetNames[rapid.IntRange(0, len(assetNames)-1).Draw(rt, "spreadName")]}
+		for i := 0; i < np; i++ {
+			var q *big.Int
+			switch rapid.IntRange(0, 4).Draw(rt, "spreadQClass") {
+			case 0:
+				q = new(big.Int).Set(two63)
+			case 1:
+				q = new(big.Int).Set(maxU64)
+			case 2:
+				q = big.NewInt(int64(rapid.IntRange(1, 1000).Draw(rt, "spreadQSmall")))
+			case 3:
+				q = new(big.Int).SetUint64(rapid.Uint64Range(1<<63-2, 1<<63+2).Draw(rt, "spreadQ63"))
+			default:
+				q = new(big.Int).SetUint64(rapid.Uint64Range(1, ^uint64(0)).Draw(rt, "spreadQ"))
+			}
+			spreadParts = append(spreadParts, q)
+		}
+		o.AfterInputs = func(rt *rapid.T, c *Case) {
+			for i, q := range spreadParts {
+				in := In{TxID: hash256([]byte("c08/spread")), Ix: uint32(10 + i), Key: payKeys[rapid.IntRange(0, 3).Draw(rt, "spreadKey")],
+					V: Val{Coin: rapid.Uint64Range(1_000_000, 5_000_000).Draw(rt, "spreadCoin"), Assets: []AQ{{spreadID, new(big.Int).Set(q)}}}}
 				c.Tx.Ins = append(c.Tx.Ins, in)
 			}
 		}
@@ -212,6 +247,23 @@ func genC08(rt *rapid.T, era Era) (*Case, string) {
 				addToOut(&tx.Outs[i], id, total)
 			}
 			tx.Outs[i].V.TaggedBig = tagged
+		case "spread":
+			// undo the generic distribution of the asset and pay one part per output
+			for oi := range tx.Outs {
+				var keep []AQ
+				for _, a := range tx.Outs[oi].V.Assets {
+					if a.ID != spreadID {
+						keep = append(keep, a)
+					}
+				}
+				tx.Outs[oi].V.Assets = keep
+			}
+			first := rapid.IntRange(0, n-1).Draw(rt, "spreadFirst")
+			for i, q := range spreadParts {
+				oi := (first + i) % n
+				tx.Outs[oi].V.Assets = append(tx.Outs[oi].V.Assets, AQ{spreadID, new(big.Int).Set(q)})
+				tx.Outs[oi].V.TaggedBig = tagged && rapid.Bool().Draw(rt, "spreadTagged")
+			}
 		case "single":
 			// one bad quantity without compensation (value NOT conserved)
 			id, ok := freshAsset(rt, tx)
@@ -277,7 +329,7 @@ func c08Key(era Era, b badQty, conserving bool) string {
 
 func TestC08(t *testing.T) {
 	rec := evi.New(t, "C08", evi.Exploration,
-		"Mary..Dijkstra transactions that are valid for the era's complete rule list (funded, signed, fees/min-UTxO/sizes satisfied, certificates/withdrawals/mint as noise) into which out-of-range asset quantities are injected by construction: 'pair' (+q/-q of a fresh asset in two outputs, nothing minted), 'shift' (+d/-d of a really consumed asset), 'sum' (two UTxO entries whose quantities add up beyond 2^64-1 paid to one output), 'single' (one uncompensated bad quantity), 'collret' (Babbage+ collateral return carrying the bad quantity), 'control' (only legal quantities incl. explicit 0). Magnitudes from the full bignum range with emphasis on 2^63 and 2^64 (+-3), plain and bignum-tagged encodings, array and map output forms. Pipeline = era decoder + VerifyTransaction with the era's UtxoValidationRules. Oracle: decode and validation accept => every output / collateral-return quantity q written in the transaction satisfies 0 <= q <= 2^64-1 (0 is pruned). Non-trivial = some written quantity is < 0 or > 2^64-1; distinct by (era, transaction bytes).")
+		"Mary..Dijkstra transactions that are valid for the era's complete rule list (funded, signed, fees/min-UTxO/sizes satisfied, certificates/withdrawals/mint as noise) into which out-of-range asset quantities are injected by construction: 'pair' (+q/-q of a fresh asset in two outputs, nothing minted), 'shift' (+d/-d of a really consumed asset), 'sum' (two UTxO entries whose quantities add up beyond 2^64-1 paid to one output), 'single' (one uncompensated bad quantity), 'collret' (Babbage+ collateral return carrying the bad quantity), 'control' (only legal quantities incl. explicit 0), 'spread' (the SAME policy+asset in 2-3 outputs, each quantity legal on its own - 2^63, 2^64-1, small, random - supplied by one UTxO entry per part). Magnitudes from the full bignum range with emphasis on 2^63 and 2^64 (+-3), plain and bignum-tagged encodings, array and map output forms. Pipeline = era decoder + VerifyTransaction with the era's UtxoValidationRules. Oracle: decode and validation accept => every output / collateral-return quantity q written in the transaction satisfies 0 <= q <= 2^64-1 (0 is pruned). In addition, for every decoded transaction the quantities observable through Outputs()/Produced()/CollateralReturn() (and each output's Cbor()) are snapshotted before validation and must be identical after the era's conservation rule, after the full rule list and after a second run of the list; both runs must give the same verdict, and an accepted transaction must still carry only quantities in 1..2^64-1. Non-trivial = some written quantity is < 0 or > 2^64-1, or one asset occurs in several outputs; distinct by (era, transaction bytes).")
 	defer rec.Finish()
 	rec.Assume(
 		"the UTxO set holds only valid values (inputs are not the subject)",
@@ -322,7 +374,64 @@ func TestC08(t *testing.T) {
 			}
 			return
 		}
-		verr := common.VerifyTransaction(dtx, c.Slot, st, c.P.forEra(era), rulesFor(era))
+		// Observable output quantities BEFORE any rule ran ...
+		snap0 := snapshotQuantities(dtx)
+		sharedAsset := assetInSeveralOutputs(tx)
+		if sharedAsset {
+			rec.Class(fmt.Sprintf("%s:same_asset_in_several_outputs", era))
+			if len(bad) == 0 {
+				h := hash256(raw)
+				rec.NonTrivial(fmt.Sprintf("%s shared %x", era, h[:]), map[string]any{"era": era.String(), "family": fam,
+					"same_asset_in_several_outputs": true, "tx": evi.Hex(raw)})
+			}
+		}
+		pp := c.P.forEra(era)
+		// ... the era's conservation rule alone, then the full list, twice
+		rerr := conservationRule(era)(dtx, c.Slot, st, pp)
+		snapR := snapshotQuantities(dtx)
+		verr := common.VerifyTransaction(dtx, c.Slot, st, pp, rulesFor(era))
+		snap1 := snapshotQuantities(dtx)
+		verr2 := common.VerifyTransaction(dtx, c.Slot, st, pp, rulesFor(era))
+		snap2 := snapshotQuantities(dtx)
+		rerr2 := conservationRule(era)(dtx, c.Slot, st, pp)
+		for _, sn := range []struct {
+			after string
+			s     []string
+		}{{"the value-conservation rule", snapR}, {"the full rule list", snap1}, {"the second run of the full rule list", snap2}} {
+			if diff := diffSnapshots(snap0, sn.s); diff != "" {
+				cs := describeCase(c)
+				cs["family"] = fam
+				cs["before"] = snap0
+				cs["after"] = sn.s
+				cs["verdict_first"] = fmt.Sprint(verr)
+				cs["verdict_second"] = fmt.Sprint(verr2)
+				what := fmt.Sprintf("%s: the quantities carried by the decoded transaction's outputs (Outputs()/Produced()/CollateralReturn()) change while it is validated: after %s %s; every written quantity was within 1..2^64-1=%v, rule verdict=%v, full-list verdict=%v",
+					era, sn.after, diff, len(bad) == 0, rerr, verr)
+				if rec.Fail(rt, fmt.Sprintf("C08:%s:rule-mutates-output-quantity", era), what, cs) {
+					return
+				}
+				break
+			}
+		}
+		if (verr == nil) != (verr2 == nil) || (rerr == nil) != (rerr2 == nil) {
+			cs := describeCase(c)
+			cs["family"] = fam
+			what := fmt.Sprintf("%s: validating the same decoded transaction twice gives different verdicts: full list %v then %v; conservation rule %v then %v", era, verr, verr2, rerr, rerr2)
+			if rec.Fail(rt, fmt.Sprintf("C08:%s:second-validation-verdict-differs", era), what, cs) {
+				return
+			}
+		}
+		if verr == nil {
+			// whatever was accepted must (still) carry only quantities in 1..2^64-1
+			if q := firstOutOfRange(dtx); q != "" && len(bad) == 0 {
+				cs := describeCase(c)
+				cs["family"] = fam
+				if rec.Fail(rt, fmt.Sprintf("C08:%s:accepted-tx-carries-out-of-range-quantity-after-validation", era),
+					fmt.Sprintf("%s: after acceptance the transaction's outputs carry %s although every written quantity was within 1..2^64-1", era, q), cs) {
+					return
+				}
+			}
+		}
 		if len(bad) == 0 {
 			if verr == nil {
 				rec.Class(fmt.Sprintf("%s:clean:accepted", era))
@@ -367,4 +476,110 @@ func TestC08(t *testing.T) {
 			era, pick.Where, pick.Index, pick.Form, pick.Q, pick.ID, pick.Class, decoded, fam, conserving)
 		rec.Fail(rt, c08Key(era, pick, conserving), what, cs)
 	})
+}
+
+// snapshotQuantities lists every asset quantity observable on the decoded
+// transaction through the public accessors: Outputs(), Produced() and
+// CollateralReturn(), plus the bytes each output reports as its CBOR.
+func snapshotQuantities(tx common.Transaction) []string {
+	var out []string
+	one := func(where string, i int, o common.TransactionOutput) {
+		if o == nil {
+			return
+		}
+		coin := "nil"
+		if a := o.Amount(); a != nil {
+			coin = a.String()
+		}
+		out = append(out, fmt.Sprintf("%s#%d coin=%s cbor=%x", where, i, coin, hash256(o.Cbor())))
+		as := o.Assets()
+		if as == nil {
+			return
+		}
+		var lines []string
+		for _, pol := range as.Policies() {
+			for _, name := range as.Assets(pol) {
+				q := as.Asset(pol, name)
+				qs := "nil"
+				if q != nil {
+					qs = q.String()
+				}
+				lines = append(lines, fmt.Sprintf("%s#%d %x.%x=%s", where, i, pol.Bytes(), name, qs))
+			}
+		}
+		sort.Strings(lines)
+		out = append(out, lines...)
+	}
+	for i, o := range tx.Outputs() {
+		one("output", i, o)
+	}
+	for i, u := range tx.Produced() {
+		one("produced", i, u.Output)
+	}
+	one("collateral-return", 0, tx.CollateralReturn())
+	return out
+}
+
+func diffSnapshots(a, b []string) string {
+	if len(a) != len(b) {
+		return fmt.Sprintf("%d observable entries became %d", len(a), len(b))
+	}
+	for i := range a {
+		if a[i] != b[i] {
+			return fmt.Sprintf("%q became %q", a[i], b[i])
+		}
+	}
+	return ""
+}
+
+// firstOutOfRange looks at the decoded transaction (not at the harness spec).
+func firstOutOfRange(tx common.Transaction) string {
+	check := func(where string, i int, o common.TransactionOutput) string {
+		if o == nil || o.Assets() == nil {
+			return ""
+		}
+		as := o.Assets()
+		pols := as.Policies()
+		sort.Slice(pols, func(a, b int) bool { return string(pols[a].Bytes()) < string(pols[b].Bytes()) })
+		for _, pol := range pols {
+			names := as.Assets(pol)
+			sort.Slice(names, func(a, b int) bool { return string(names[a]) < string(names[b]) })
+			for _, name := range names {
+				if q := as.Asset(pol, name); q != nil && !refQuantityInRange(q) {
+					return fmt.Sprintf("%s #%d asset %x.%x quantity %s", where, i, pol.Bytes(), name, q)
+				}
+			}
+		}
+		return ""
+	}
+	for i, o := range tx.Outputs() {
+		if s := check("output", i, o); s != "" {
+			return s
+		}
+	}
+	for i, u := range tx.Produced() {
+		if s := check("produced", i, u.Output); s != "" {
+			return s
+		}
+	}
+	return check("collateral-return", 0, tx.CollateralReturn())
+}
+
+func assetInSeveralOutputs(tx *TxSpec) bool {
+	n := map[AssetID]int{}
+	for _, o := range tx.Outs {
+		seen := map[AssetID]bool{}
+		for _, a := range o.V.Assets {
+			if !seen[a.ID] {
+				seen[a.ID] = true
+				n[a.ID]++
+			}
+		}
+	}
+	for _, k := range n {
+		if k > 1 {
+			return true
+		}
+	}
+	return false
 }
